@@ -90,7 +90,7 @@ func (o GOp) String() string {
 // mirror returns the operation whose effect on g equals applying o to g.Reverse().
 func (o GOp) mirror() GOp {
 	switch o.Op {
-	case "AddEdge", "AddEdgeWeighted", "RemoveEdge":
+	case "AddEdge", "AddEdgeWeighted", "AddEdgeWeighted0", "RemoveEdge":
 		return GOp{Op: o.Op, U: o.V, V: o.U}
 	}
 	return o
@@ -114,6 +114,9 @@ func applyModel(s GState, o GOp) GState {
 	case "AddEdgeWeighted":
 		n.Init = true
 		n.W[o.U+">"+o.V] = 2
+	case "AddEdgeWeighted0":
+		n.Init = true
+		n.W[o.U+">"+o.V] = 0
 	case "RemoveEdge":
 		n.Init = true
 		delete(n.W, o.U+">"+o.V)
@@ -139,6 +142,8 @@ func applyReal(g *graph.Graph, o GOp) {
 		g.AddEdge(hvOf(o.U, 0), hvOf(o.V, 1))
 	case "AddEdgeWeighted":
 		g.AddEdgeWeighted(hvOf(o.U, 1), hvOf(o.V, 0), 2)
+	case "AddEdgeWeighted0":
+		g.AddEdgeWeighted(hvOf(o.U, 0), hvOf(o.V, 1), 0)
 	case "RemoveEdge":
 		g.RemoveEdge(hvOf(o.U, 0), hvOf(o.V, 0))
 	case "Remove":
@@ -296,6 +301,9 @@ type GCase struct {
 	Op    *GOp     `json:"op,omitempty"` // replay: only this operation
 }
 
+// zeroWeights adds weight 0 to the alphabet (size-0 space only: 4^(k*k) edge states).
+var zeroWeights = false
+
 func opMenu(codes []string, s GState) []GOp {
 	var ops []GOp
 	for _, c := range codes {
@@ -311,6 +319,9 @@ func opMenu(codes []string, s GState) []GOp {
 			_, pv := s.Rep[v]
 			if pu && pv { // documented precondition of AddEdge*
 				ops = append(ops, GOp{Op: "AddEdge", U: u, V: v}, GOp{Op: "AddEdgeWeighted", U: u, V: v})
+				if zeroWeights {
+					ops = append(ops, GOp{Op: "AddEdgeWeighted0", U: u, V: v})
+				}
 			}
 		}
 	}
@@ -398,6 +409,35 @@ func checkGCase(c GCase, transitions *int) (fs []Finding) {
 		if o2 := readBack(g, c.Codes, &errs); len(errs) > 0 || !sameState(o2, wantM, true) {
 			add("reverse-shares:"+o.Op, "%s on the reversed view of %s leaves the original as %s %v, want the mirrored effect %s", o, s.Key(), o2.Key(), errs, wantM.Key())
 		}
+		// ... and keeps sharing it: further operations through the same view (obtained
+		// before the first one) still show in the original, and operations on the original
+		// show mirrored in a view obtained earlier
+		cur2 := wantM
+		for _, fo := range followUps(c.Codes) {
+			applyReal(r, fo)
+			cur2 = applyModel(cur2, fo.mirror())
+			errs = nil
+			if o5 := readBack(g, c.Codes, &errs); len(errs) > 0 || !sameState(o5, cur2, true) {
+				add("reverse-detached:"+o.Op, "after %s, then %s, both on one reversed view of %s, the original reads back as %s %v, want %s", o, fo, s.Key(), o5.Key(), errs, cur2.Key())
+				break
+			}
+		}
+		g = buildReal(s, c.Codes)
+		r = g.Reverse()
+		applyReal(g, o)
+		cur3 := want
+		for _, fo := range append([]GOp{{Op: "nop"}}, followUps(c.Codes)...) {
+			if fo.Op != "nop" {
+				applyReal(g, fo)
+				cur3 = applyModel(cur3, fo)
+			}
+			errs = nil
+			got := readBack(r.Reverse(), c.Codes, &errs) // the view, read back in the original's orientation
+			if len(errs) > 0 || !sameState(got, cur3, true) {
+				add("reverse-stale:"+o.Op, "after %s (then %s) on %s, a reversed view taken before reads back (re-reversed) as %s %v, want %s", o, fo, s.Key(), got.Key(), errs, cur3.Key())
+				break
+			}
+		}
 		g = buildReal(s, c.Codes)
 		rr := g.Reverse().Reverse()
 		errs = nil
@@ -411,6 +451,11 @@ func checkGCase(c GCase, transitions *int) (fs []Finding) {
 		}
 	}
 	return
+}
+
+// followUps: operations applied after the one under test, through the same view.
+func followUps(codes []string) []GOp {
+	return []GOp{{Op: "Add", U: codes[0], Rep: 0}, {Op: "Add", U: codes[1], Rep: 1}, {Op: "AddEdge", U: codes[0], V: codes[1]}}
 }
 
 // bfsStates enumerates the reachable model states breadth-first from the zero Graph.
@@ -447,8 +492,10 @@ func init() {
 	CaseTiers["graph-state"] = &CaseTier{Name: "graph-state",
 		Doc: "explicit-state BFS from the zero Graph over Add/AddOverwrite (2 representative objects per hash code)/AddEdge/AddEdgeWeighted/RemoveEdge/Remove; in every state every operation is applied to the real Graph (and to its Copy and Reverse) and read back through Vertices/Vertex/OutEdges/InEdges/String against an adjacency-matrix model",
 		Run: func(st Step, pick func(int) bool, stats *Stats, emit func(Replay)) {
+			// size 0: {A,B}, weights {absent,1,2}; size 1: {A,B,C}; size 2: {A,B} with weight 0 too
 			codes := []string{"A", "B"}
-			if st.Size >= 1 {
+			zeroWeights = st.Size == 2
+			if st.Size == 1 {
 				codes = []string{"A", "B", "C"}
 			}
 			states, maxDepth := bfsStates(codes, func(idx int, s GState, path []GOp, depth int) {
@@ -500,7 +547,7 @@ func init() {
 		},
 	}
 	Plans["C19"] = map[string][]Step{
-		"quick":    {{Tier: "graph-state", Size: 0, Bound: 1}},
-		"thorough": {{Tier: "graph-state", Size: 0, Bound: 2}, {Tier: "graph-state", Size: 1, Bound: 0}},
+		"quick":    {{Tier: "graph-state", Size: 0, Bound: 1}, {Tier: "graph-state", Size: 2, Bound: 0}},
+		"thorough": {{Tier: "graph-state", Size: 0, Bound: 2}, {Tier: "graph-state", Size: 2, Bound: 1}, {Tier: "graph-state", Size: 1, Bound: 0}},
 	}
 }
